@@ -2,22 +2,22 @@ SPECIFICATION Spec
 CONSTANTS
   ArgsOf <- MCArgs
   InitHeaps <- MCInit2
-  MaxDepth = 1
+  MaxDepth = 2
   Breaks <- BreaksQ
-  Degs <- DegsQ
+  Degs <- DegsT
   MaxNpts = 5
-  Acts = {"CvSplit"}
+  Acts = {"CvKnotInsert", "CvKnotRemove"}
   PtKinds = {"gen"}
-  WtKinds = {"none", "gen"}
+  WtKinds = {"none", "gen", "gen2"}
   ExtraNodes <- Extra0
   NodeSize = 2
-  Scenario = "single"
-  PrepDepth = 0
+  Scenario = "history"
+  PrepDepth = 1
   OtherDegs <- DegsQ
   OtherMaxNpts = 4
 INVARIANT WellFormed
 PROPERTY FailedIsNoOp
-PROPERTY SplitRestricts
+PROPERTY RemoveExactOrRefused
 ACTION_CONSTRAINT Log
 VIEW View
 CHECK_DEADLOCK FALSE
